@@ -39,6 +39,10 @@ def run(chk, tier, scale=1.0):
         for n_ in ([1500, 6000] if tier == "quick" else [1500, 6000, 20000, 60000]):
             for desc in (0, 1):
                 jobs.append((exe, ["fill", cmp_, str(n_), str(desc)], 3600))
+    # a chain as deep as the set, cleared without a lookup in between (a request table full of pending requests at end of input)
+    for n_ in ([400000] if tier == "quick" else [400000, 1500000]):
+        for desc in (0, 1):
+            jobs.append((exe, ["deepclear", str(n_), str(desc)], 3600))
     for i, (cmp_, uni) in enumerate(plan):
         jobs.append((exe, ["random", cmp_, str(seed * 1000 + i), str(uni), str(nops)], 3600))
     res = vcommon.pmap(_job, jobs)
@@ -67,7 +71,7 @@ def run(chk, tier, scale=1.0):
         viols = re.findall(r"^VIOL (\S+) (.*)$", so, re.M)
         paths = re.findall(r"^PATH(.*)$", so, re.M)
         for k, (rule, detail) in enumerate(viols[:5]):
-            part = argv[0] + (":" + argv[1] if argv[0] in ("random", "fill") else "")
+            part = argv[0] + (":" + argv[1] if argv[0] in ("random", "fill", "deepclear") else "")
             sig = "%s:%s" % (rule, part if argv[0] != "shapes" else "shapes")
             chk.violation(Violation("C19", rule, sig, "%s: %s%s" % (case, detail, ("\npath:" + paths[k]) if k < len(paths) else ""),
                                     {"argv": argv, "detail": detail, "path": paths[k] if k < len(paths) else None}))
